@@ -46,7 +46,7 @@ extern "C" int LLVMFuzzerTestOneInput(const uint8_t* data, size_t size) {
     FILE* f = fn ? fopen(fn, "a") : nullptr;
     std::string w = what;
     for (auto& c : w)
-      if (c == '\t' || c == '\n' || c == '\r') c = ' ';
+      if ((unsigned char)c < 0x20 || (unsigned char)c >= 0x7F) c = '?';  // what() may quote raw input bytes
     if (f) {
       fprintf(f, "%s\t%s\t%s\n", key.c_str(), c05::hexs(doc).c_str(), w.c_str());
       fclose(f);
